@@ -181,8 +181,24 @@ func RunGoja(src string, opt RunOpts) *Obs {
 	if opt.Cover {
 		goja.VerifCoverInstr(rt, true)
 	}
+	// compile first: early errors are a different outcome ("COMPILE") than exceptions thrown while running
+	var prg *goja.Program
+	cout := gj.Call(func() (goja.Value, error) {
+		p, err := goja.Compile("p.js", src, false)
+		prg = p
+		return nil, err
+	})
+	if cout.Panic != nil {
+		obs.Harness = fmt.Sprintf("go panic escaped from Compile: %v\n%s", cout.Panic, cout.PanicStack)
+		obs.Final = "PANIC"
+		return obs
+	}
+	if cout.Err != nil || prg == nil {
+		obs.Final = "COMPILE " + gj.ErrKind(cout.Err)
+		return obs
+	}
 	start := goja.VerifSteps(rt)
-	out := gj.Call(func() (goja.Value, error) { return rt.RunString(src) })
+	out := gj.Call(func() (goja.Value, error) { return rt.RunProgram(prg) })
 	obs.Steps = goja.VerifSteps(rt) - start
 	if opt.Cover {
 		obs.InstrSet = goja.VerifInstrSet(rt)
